@@ -273,7 +273,11 @@ Content-Length; distinct by case index";
             ctx.label_if(conn >= 2, "connection:keep-alive-announced");
         }
         let mut structural = vec![];
-        let mut wire = build_head("HTTP/1.1", status, Some("Reason"), &headers, &mut structural);
+        // the protocol-version token of the status line does not change which framing applies (a variant is picked from the
+        // other coordinates)
+        let version = ["HTTP/1.1", "HTTP/1.0", "HTTP/1.1", "HTTP/1.1", "HTTP/1.0"][(case.method as usize + case.status as usize * 2 + case.cl as usize * 3 + case.te as usize + case.plen as usize) % 5];
+        ctx.label_if(version == "HTTP/1.0", "status-line-says-HTTP/1.0");
+        let mut wire = build_head(version, status, Some("Reason"), &headers, &mut structural);
 
         // which framing governs, and what is acceptable
         let mut accept: Vec<Expect> = vec![];
